@@ -35,7 +35,8 @@ PROPS['C01'] = dict(
     level_text='Theorems state that on every trie reachable by any subscribe/unsubscribe history a Walk reports exactly the data stored under the filters that MQTT-match the topic (mmatch), independent of the other filters; the Go trie is tied to the model exhaustively for <=3/4 levels over {a,b,c,+,#,""} and by seeded histories.',
     level_note='Trusted: Coq kernel + vm_compute; harness/emitter/evaluator. Topics with a # level are outside the theorem (MQTT forbids them in PUBLISH).',
     theorems=['walk_matches', 'reachable_tries_wf', 'walk_history_spec', 'match_independent'],
-    families=[dict(name='tries', corr='Tries', runs=[('x01', 1, 1), ('rsub', 300, 5000)])],
+    families=[dict(name='tries', corr='Tries', runs=[('x01', 1, 1), ('rsub', 300, 5000)]),
+              dict(name='crdt', corr='DState', runs=[('subs', 200, 3000)])],
     rule='x01: every filter of <=3 (quick) / <=4 (thorough) levels over {a,b,c,+,#,""} against every topic of the same '
          'depth over {a,b,c,""}, once with all filters in one tree and once with each filter alone in a fresh tree; '
          'random: subscribe/unsubscribe/re-subscribe histories as for C19. Non-trivial: >=1 mutation and >=1 query.',
@@ -59,4 +60,27 @@ PROPS['C04'] = dict(
     level_note='Trusted: Coq kernel + vm_compute; harness/emitter/evaluator. Modelled: heap+map of buckets as a sorted list, lock-free hash as an association list; time.Time as nanoseconds (one Location). Concurrent use is C20. expiration/skiplist.go (unwired) is not modelled.',
     families=[dict(name='ackqueue', corr='AckQueue', runs=[('exhaustive', 1, 1), ('random', 800, 12000)])],
     rule='exhaustive: every sequence of <=3 (quick) / <=4 (thorough) operations drawn from 13 register/acknowledge/sweep operations over a 2x2 key space with two deadlines in the same second and one in the next, closed by a final sweep; random: 1-40 operations over 3 sessions x 4 identifiers, deadlines on a 250 ms grid around a slowly advancing clock (equal, same-second, past and future deadlines, +-1 ns offsets), 15% wrong packet types, unknown identifiers, identifier 0, QoS 0, non-acknowledgement packets. Non-trivial: >=2 registrations and >=1 callback.',
+)
+
+_CRDT_RULE = ('perm: every set of <=3 (quick) / <=4 (thorough) updates from a pool of 12 per store (2 keys x 3 timestamps x {add, remove}) '
+              'injected into three fresh replicas in order, in every other order with one element duplicated, and as one batch; '
+              'bcast: one origin with an increasing clock performing 5-40 random mutators (bulk DeletePeer/DeleteSession included), replica 1 receives '
+              'every broadcast in order, replica 2 a shuffled stream with duplicates; snapshot: two origins with clocks offset by up to +-20, '
+              '0-100% of the gossip lost, then full-state exchange one way or both; random: three origins with clocks offset by up to +-10000, '
+              'lossy/reordered/duplicated/batched gossip and snapshots. Every script ends with the visible lists and the full-state dump of every '
+              'replica, ByPattern and Get queries. Non-trivial: >=2 updates and >=1 check; distinct by input.')
+PROPS['C08'] = dict(
+    theorems=[],
+    families=[dict(name='crdt', corr='DState', runs=[('perm', 1, 1), ('random', 300, 5000)])],
+    rule=_CRDT_RULE,
+)
+PROPS['C09'] = dict(
+    theorems=[],
+    families=[dict(name='crdt', corr='DState', runs=[('bcast', 300, 5000)])],
+    rule=_CRDT_RULE,
+)
+PROPS['C10'] = dict(
+    theorems=[],
+    families=[dict(name='crdt', corr='DState', runs=[('snapshot', 300, 5000)])],
+    rule=_CRDT_RULE,
 )
